@@ -248,6 +248,23 @@ def glue_shard(arg):
     return st
 
 
+EXTRA_BASES = [
+    "void f ( void ) { x = 1 + 1 + 1 + 1 + 1 + ( int [ ( { 1 ; } ) ] ) { 0 } [ 0 ] - 7 ; }",
+    "int g ( int a ) { return ( { int b = a ; b + 1 ; } ) + sizeof ( int [ ( { 2 ; } ) ] ) ; }",
+    "void h ( void ) { y = ( struct S { int m [ 2 ] ; } ) { { 1 , 2 } } . m [ ( { 0 ; } ) ] + ( ( int ) ( 3 ) ) ; }",
+    "int k ( int n ) { int v [ n ] [ ( { n ; } ) ] ; for ( int i = ( 0 ) ; i < ( n ) ; i ++ ) { v [ i ] [ 0 ] = ( i ) ; } return v [ 0 ] [ 0 ] ; }",
+]
+
+
+def extra_shard(i):
+    st = Stats()
+    try:
+        mutate_program(EXTRA_BASES[i].split(), st, "extra", True)
+    except CheckFailure as f:
+        st.failures.append(f.failure)
+    return st
+
+
 def twin_shard(arg):
     """The same program twice, each copy behind the SAME linemarker: every token
     of the second copy has the file, line and column of its twin in the first.
@@ -441,6 +458,7 @@ def run(ctx):
     ctx.map(directive_shard, [(s, ctx.pick(6, 150)) for s in ctx.shard_seeds(16, 11)])
     ctx.map(glue_shard, [(s, ctx.pick(6, 150)) for s in ctx.shard_seeds(16, 12)])
     ctx.map(twin_shard, [(s, ctx.pick(10, 200)) for s in ctx.shard_seeds(16, 13)])
+    ctx.map(extra_shard, list(range(len(EXTRA_BASES))))
     import json
     import os
 
